@@ -6,13 +6,15 @@ from corebase import CHECK_MODS, CASE_TYPE, CORR, run_impl, encode, shrink  # no
 
 PROP = 'C11'
 PROPCHK = 'C11_prop'
+RELAX = [('F-C01-row-switch', 'C11_prop_switch')]
+RELAX_ALL = 'C11_prop_switch'
 THEOREMS = ['C11_at_most_one_row', 'C11_operation_type_coalesces', 'C11_other_entities_do_not_interfere', 'C11_example']
 RULE = ('(enumerated) every sequence over {insert, update, delete, re-insert} of one key with every placement of flush '
         'points, up to length 4, inside a single transaction after a committed prefix (entity pre-existing or not), both '
         'strategies, tracker on/off - a finite family used as test inputs, the theorem is unbounded; plus (random) the '
         'general history generator with autoflush on/off. The real tables after every flush are compared with the model, '
         'and the predicate checks: one row per entity with a flushed change and none otherwise, operation type = coalesced '
-        'kinds, flags = OR over the flushes, chain closed. Non-trivial: >= 2 flushes touching the same entity in one '
+        'kinds, row content = the live row at the commit, flags = OR over the flushes, chain closed. Non-trivial: >= 2 flushes touching the same entity in one '
         'transaction.')
 ASSUMPTIONS = B.COMMON_ASSUMPTIONS
 
